@@ -3,6 +3,7 @@ import Marwood.Lemmas.StackWFToy
 import Marwood.Lemmas.GoodEval
 import Marwood.Proofs.C13
 import Marwood.Lemmas.ConcreteLawsBpLive
+import Marwood.Lemmas.PrepareHistory
 /-!
 # C07 — a failed evaluation leaves no trace beyond its completed effects
 
@@ -712,5 +713,110 @@ theorem prepared_pinv_after_failure (ext : ExtOps) (force : Bool) (el : ExtLaws 
 example : CompProc (fun _ _ => .err .invalidSyntax) := ⟨fun _ _ _ _ _ _ h => (by cases h)⟩
 
 end ConcreteSim
+
+/-! ## T07.4 with `prepare_eval` made explicit: no per-job invariant hypothesis (Lemmas/Prepare*.lean)
+
+`failed_eval_equivalent_later_closed` asks `VmOk ∧ PInv` of the state the failing evaluation starts in and of the two
+states the later evaluation starts in (`s2`, `t2`), and the law `CompGood` of the compiler inside `prepare_eval`. Here
+these are consequences: the machine BEFORE the failing job is idle and satisfies the idle invariant `IdleOk` (which
+follows from `VmOkP` of a state with an empty stack: `VmOkP.idleOk`), each `prepare_eval` is described by the loader
+relation `Installs` (Lemmas/PrepareDefs.lean: allocator steps installing loadings of the code objects of the compiler
+model, their data, symbols and global slots), and `prepare_vmOkP_idle` re-establishes the bundled invariant. What is
+still a parameter: `CompLaws` (the compiler behaves alike on `Sim`-related heaps — inherent to a statement relating
+two heaps), the laws of the unmodelled builtins, and the physical size bound. -/
+section InstallsT074
+open Marwood.Vm.Concrete Marwood.Lemmas.Sim Marwood.Lemmas.Good Marwood.Proofs.C13
+
+/-- **T07.4 from the idle invariant of the state before the failing job.** `s0` is the idle machine,
+    `Installs e0 cf0 s0 s0' entry0` its `prepare_eval`, the evaluation from `prepare s0' entry0` fails; the failed VM
+    `s1` and the twin `onError sf` are idle machines again (`IdleOk`), and for EVERY later form whose `prepare_eval`
+    on both machines is described by `Installs`, the evaluation ends the same way on both. -/
+theorem failed_eval_equivalent_later_installs (ext : ExtOps) (force : Bool) (el : ExtLaws ext) (eg : ExtGood ext)
+    (ecl : ExtCodeLawsV ext) (ep : ExtProc ext)
+    (comp : CHeap → VCell → Outcome (CHeap × VCell)) (cl : CompLaws comp)
+    (count : Option Nat) (fuel : Nat) (s0 s0' : St CHeap) (e0 : Datum) (cf0 entry0 : Nat) (f : Fault) (s1 : St CHeap)
+    (i0 : IdleOk s0) (inst0 : Installs e0 cf0 s0 s0' entry0)
+    (hfail : runEval (concreteOps ext) (cgc force) count fuel (prepare s0' entry0) = .failed f s1)
+    (sb : SizeBounded (machine ext force) (prepare s0' entry0)) (sm1 : Small s1.heap) :
+    ∃ sf, runLoop (machine ext force) count fuel 0 (prepare s0' entry0) = .error f sf ∧ s1 = cgc force (onError sf) ∧
+      (∃ ψ, Sim ψ s1 (onError sf)) ∧ IdleOk s1 ∧ IdleOk (onError sf) ∧
+      ∀ (d : VCell) (s2 t2 : St CHeap) (e : Datum) (cf : Nat), addrFree d = true →
+        prepareEval comp s1 d = .ok s2 → prepareEval comp (onError sf) d = .ok t2 →
+        Installs e cf s1 { s1 with heap := s2.heap } s2.ipL →
+        Installs e cf (onError sf) { onError sf with heap := t2.heap } t2.ipL →
+        SizeBounded (machine ext force) s2 → SizeBounded (machine ext force) t2 →
+        ∀ k : Nat,
+          (∀ t', pureN (machine ext force) k t2 = .done t' →
+            ∃ s' t'', run (machine ext force) k s2 = .done s' ∧ run (machine ext force) k t2 = .done t'' ∧
+              ∀ fl, resultObs fl s' = resultObs fl t'') ∧
+          (∀ e' t', pureN (machine ext force) k t2 = .error e' t' →
+            ∃ s' t'', run (machine ext force) k s2 = .error e' s' ∧ run (machine ext force) k t2 = .error e' t'' ∧
+              (∃ ψ, Sim ψ s' t' ∧ All2 (AddrRel ψ) (traceFrames s') (traceFrames t')) ∧
+              (∃ ψ, Sim ψ t'' t' ∧ All2 (AddrRel ψ) (traceFrames t'') (traceFrames t'))) := by
+  have hv0 : VmOkP ext ecl (prepare s0' entry0) := prepare_vmOkP_idle i0 inst0 (sb (prepare s0' entry0) (.refl _))
+  obtain ⟨q1, sf, hrun, rfl, _⟩ := failed_eval_resets_cgc ext force count fuel _ f s1 hfail
+  have hreach : Reaches (machine ext force) (prepare s0' entry0) sf :=
+    (runLoop_reaches ext force count fuel 0 _).1 f sf hrun
+  have hvf := vmOkP_reaches force el eg ep hv0 sb sf hreach
+  have gsf : GoodI sf := hvf.1.1
+  have hc : 0 < sf.stack.cells.length := by
+    have h1 : 0 < (prepare s0' entry0).stack.cells.length := by
+      have := i0.cap
+      rw [inst0.regs]; exact this
+    exact Nat.lt_of_lt_of_le h1 (reaches_len_mono hreach)
+  have it1 : IdleOk (onError sf) := idleOk_onError gsf hvf.1.cinv hvf.2 hc
+  have is1 : IdleOk (cgc force (onError sf)) := it1.gc force sm1
+  have smt1 : Small (onError sf).heap := sb sf hreach
+  obtain ⟨ψ0, hsim0⟩ := failed_twin_sim force gsf sm1
+  refine ⟨sf, hrun, rfl, ⟨ψ0, hsim0⟩, is1, it1, ?_⟩
+  intro d s2 t2 e cf hd hs2 ht2 in2 int2 sb2 sbt k
+  obtain ⟨ψ, hsim⟩ := prepare_sim cl hsim0 sm1.sizeOk smt1.sizeOk (SymOk.of_wf is1.good.hg.wf)
+    (SymOk.of_wf it1.good.hg.wf) hd hs2 ht2
+  obtain ⟨h2, e2, _, rfl⟩ := prepareEval_inv hs2
+  obtain ⟨h2', e2', _, rfl⟩ := prepareEval_inv ht2
+  have v2 : VmOkP ext ecl (prepare { cgc force (onError sf) with heap := h2 } e2) :=
+    prepare_vmOkP_idle is1 in2 (sb2 (prepare { cgc force (onError sf) with heap := h2 } e2) (.refl _))
+  have vt : VmOkP ext ecl (prepare { onError sf with heap := h2' } e2') :=
+    prepare_vmOkP_idle it1 int2 (sbt (prepare { onError sf with heap := h2' } e2') (.refl _))
+  have safe2 := safe_of_vmOk force el eg v2.1 sb2 (calleeOkAlong_of_vmOk force el eg ep v2.1 v2.2 sb2)
+  have safet := safe_of_vmOk force el eg vt.1 sbt (calleeOkAlong_of_vmOk force el eg ep vt.1 vt.2 sbt)
+  have hT := gcTransparent_concrete_partial ext force el
+  have hR : R (machine ext force) _ _ := ⟨⟨ψ, hsim⟩, safe2, safet⟩
+  have a := run_pureN _ _ hT k 0 _ _ hR
+  have b := run_pureN _ _ hT k 0 _ _ (R_refl _ safet)
+  constructor
+  · intro t' hk
+    obtain ⟨s', h1, ⟨⟨φ1, r1⟩, ss1, st1⟩⟩ := a.1 t' hk
+    obtain ⟨t'', h2, ⟨⟨φ2, r2⟩, ss2, st2⟩⟩ := b.1 t' hk
+    refine ⟨s', t'', h1, h2, fun fl => ?_⟩
+    rw [resultObs_sim r1 ss1.good.size st1.good.size fl, resultObs_sim r2 ss2.good.size st2.good.size fl]
+  · intro e' t' hk
+    obtain ⟨s', h1, ⟨⟨φ1, r1⟩, _, _⟩⟩ := a.2 e' t' hk
+    obtain ⟨t'', h2, ⟨⟨φ2, r2⟩, _, _⟩⟩ := b.2 e' t' hk
+    exact ⟨s', t'', h1, h2, ⟨φ1, r1, traceFrames_rel r1⟩, ⟨φ2, r2, traceFrames_rel r2⟩⟩
+
+/-- the same with the bundled invariant `VmOkP` of an INITIAL state with an empty stack as the only invariant
+    hypothesis (`VmOkP.idleOk`) -/
+theorem failed_eval_equivalent_later_installs_vmOkP (ext : ExtOps) (force : Bool) (el : ExtLaws ext) (eg : ExtGood ext)
+    (ecl : ExtCodeLawsV ext) (ep : ExtProc ext)
+    (comp : CHeap → VCell → Outcome (CHeap × VCell)) (cl : CompLaws comp)
+    (count : Option Nat) (fuel : Nat) (s0 s0' : St CHeap) (e0 : Datum) (cf0 entry0 : Nat) (f : Fault) (s1 : St CHeap)
+    (h0 : VmOkP ext ecl s0) (hsp : s0.stack.sp = 0) (hcap : 0 < s0.stack.cells.length)
+    (inst0 : Installs e0 cf0 s0 s0' entry0)
+    (hfail : runEval (concreteOps ext) (cgc force) count fuel (prepare s0' entry0) = .failed f s1)
+    (sb : SizeBounded (machine ext force) (prepare s0' entry0)) (sm1 : Small s1.heap) :
+    ∃ sf, runLoop (machine ext force) count fuel 0 (prepare s0' entry0) = .error f sf ∧ s1 = cgc force (onError sf) ∧
+      (∃ ψ, Sim ψ s1 (onError sf)) ∧ IdleOk s1 ∧ IdleOk (onError sf) :=
+  let ⟨sf, a, b, c, d, e, _⟩ := failed_eval_equivalent_later_installs ext force el eg ecl ep comp cl count fuel s0 s0' e0
+    cf0 entry0 f s1 (h0.idleOk hsp hcap) inst0 hfail sb sm1
+  ⟨sf, a, b, c, d, e⟩
+
+open Marwood.Lemmas.Good.Demo in
+/-- non-vacuity of the idle invariant: the demo machine (heap = one entry lambda `[HALT]`, empty stack) satisfies it,
+    and a history in which the compiler rejects a form that allocated nothing keeps it -/
+example : IdleOk (sHalt 0) ∧ InstallsGarbage (sHalt 0) (sHalt 0) :=
+  ⟨(sHalt_vmOkP failingExt failingExt_codeLawsV).idleOk rfl (by decide), ⟨rfl, .refl _⟩⟩
+
+end InstallsT074
 
 end Marwood.Proofs.C07
